@@ -1,18 +1,629 @@
-//! C02 — not built yet (stub).
+//! C02 — written files are valid packages that an independent reader (pyref/xlsx_ref.py) decodes to the model.
 use crate::common::*;
+use crate::dump::*;
+use crate::e1::*;
 use crate::pool::*;
-use serde_json::Value;
+use crate::pyref::with_py;
+use crate::wbuild::*;
+use serde_json::{json, Value};
+use umya_spreadsheet::*;
 
 pub fn entry() -> crate::Entry {
     crate::Entry { id: "C02", run, space, replay }
 }
-pub fn space(_tier: Tier, _id: &str) -> Option<Box<dyn Space>> {
-    None
+
+pub const FEATURES: [&str; 11] = ["styles", "ext-links", "int-links", "comments", "merges", "defined-names", "validations", "cond-formats", "table", "protection", "sheet-removed-renamed"];
+
+/// Build the lattice workbook for a feature subset.
+pub fn build_lattice(bits: u32, macro_payload: bool) -> Spreadsheet {
+    let mut b = new_file();
+    let has = |i: usize| bits & (1 << i) != 0;
+    b.new_sheet("Data 2").unwrap();
+    if has(10) {
+        b.new_sheet("Third").unwrap();
+    }
+    {
+        let ws = b.get_sheet_mut(&0).unwrap();
+        add_base_cells(ws, "one");
+    }
+    for idx in 1..b.get_sheet_count() {
+        let ws = b.get_sheet_mut(&idx).unwrap();
+        add_base_cells(ws, &format!("s{}", idx));
+    }
+    // features go on the first sheet and (smaller) on the last sheet
+    let last = b.get_sheet_count() - 1;
+    for (k, idx) in [0usize, last].iter().enumerate() {
+        let ws = b.get_sheet_mut(idx).unwrap();
+        if has(0) {
+            add_styles(ws);
+        }
+        if has(1) {
+            add_ext_links(ws, if k == 0 { 8 } else { 3 }, &|i| format!("https://example.com/s{}/page{}?x={}", k, i, i * 7));
+        }
+        if has(2) {
+            add_int_links(ws, 2, &|i| format!("Sheet1!B{}", i + k as u32));
+        }
+        if has(3) {
+            add_comments(ws, if k == 0 { 3 } else { 1 }, &|i| if i % 2 == 0 { "Author A".into() } else { "Author B".into() }, &|i| format!("comment {} on sheet {}", i, k));
+        }
+        if has(4) {
+            add_merges(ws, 2);
+        }
+        if has(6) {
+            add_validations(ws, 2, "pick one", "\"a,b,c\"");
+        }
+        if has(7) {
+            add_cond_formats(ws, 2, "20");
+        }
+        if has(8) {
+            add_table(ws, if k == 0 { "Table1" } else { "Table2" }, ["Col A", "Col B"]);
+        }
+        if has(9) {
+            add_sheet_protection(ws);
+        }
+    }
+    if has(5) {
+        add_defined_names(&mut b, 0, "GlobalOne", "LocalOne");
+        add_defined_names(&mut b, last, "GlobalTwo", "LocalTwo");
+    }
+    if has(9) {
+        add_book_protection(&mut b);
+    }
+    if has(10) {
+        // remove the middle sheet, rename the (now second) last one
+        b.remove_sheet(1).unwrap();
+        b.set_sheet_name(1, "Renamed & Co").unwrap();
+    }
+    if macro_payload {
+        b.set_macros_code(vec![0xD0u8, 0xCF, 0x11, 0xE0, 1, 2, 3, 4, 5, 6, 7, 8]);
+    }
+    b
 }
-fn replay(_tier: Tier, _case: &Value) -> Vec<Violation> {
-    vec![]
+
+fn subsets(tier: Tier) -> Vec<u32> {
+    let n = FEATURES.len() as u32;
+    let all = (1u32 << n) - 1;
+    let mut v: Vec<u32> = (0..=all).collect();
+    if tier == Tier::Quick {
+        v.retain(|s| s.count_ones() <= 2 || (all & !s).count_ones() <= 1);
+    }
+    // simplest first
+    v.sort_by_key(|s| (s.count_ones(), *s));
+    v
 }
-fn run(_ctx: &Ctx) -> i32 {
-    eprintln!("MACHINERY: C02 is not built yet");
-    2
+
+// ------------------------------------------------------------------------------------------------
+// model vs. independent decoder
+
+fn part_family(p: &str) -> String {
+    let mut s: String = p.chars().map(|c| if c.is_ascii_digit() { '#' } else { c }).collect();
+    while s.contains("##") {
+        s = s.replace("##", "#");
+    }
+    s
+}
+
+pub struct Diff {
+    pub clause: &'static str,
+    pub symptom: String,
+    pub detail: String,
+}
+
+/// Compare the pre-save model dump (dump::book_p with annotations) with P's decoding of the written bytes.
+pub fn compare_model_p(model: &Value, p: &Value) -> Vec<Diff> {
+    let mut out = vec![];
+    let ms = model["sheets"].as_array().cloned().unwrap_or_default();
+    let ps = p["sheets"].as_array().cloned().unwrap_or_default();
+    let mnames: Vec<String> = ms.iter().map(|s| s["name"].as_str().unwrap_or("").to_string()).collect();
+    let pnames: Vec<String> = ps.iter().map(|s| s["name"].as_str().unwrap_or("").to_string()).collect();
+    if mnames != pnames {
+        out.push(Diff { clause: "decoder-sheet-list", symptom: if mnames.len() != pnames.len() { "sheet-count".into() } else { "sheet-name-or-order".into() }, detail: format!("model sheets {:?}, file sheets {:?}", mnames, pnames) });
+        return out;
+    }
+    for (si, (m, q)) in ms.iter().zip(ps.iter()).enumerate() {
+        let sname = &mnames[si];
+        if let Some(st) = m.get("state") {
+            // the default state is "visible" (ECMA 18.2.19); the model leaves it empty when never set
+            let ms_ = match st.as_str().unwrap_or("") { "" => "visible", x => x }.to_string();
+            if json!(ms_) != q["state"] {
+                out.push(Diff { clause: "decoder-sheet-list", symptom: "sheet-state".into(), detail: format!("sheet {:?}: state {} vs {}", sname, st, q["state"]) });
+            }
+        }
+        if q.get("unreadable").is_some() {
+            out.push(Diff { clause: "decoder-cells", symptom: "sheet-part-unreadable".into(), detail: format!("sheet {:?} part missing or malformed", sname) });
+            continue;
+        }
+        let mc = m["cells"].as_object().cloned().unwrap_or_default();
+        let pc = q["cells"].as_object().cloned().unwrap_or_default();
+        // cells: every model cell with value or formula must be decoded the same; decoded cells that carry a
+        // value or formula must exist in the model
+        for (k, c) in &mc {
+            let kind = c["kind"].as_str().unwrap_or("");
+            let formula = c["formula"].as_str().unwrap_or("");
+            if kind.is_empty() && formula.is_empty() {
+                continue;
+            }
+            match pc.get(k) {
+                None => out.push(Diff { clause: "decoder-cells", symptom: "cell-missing".into(), detail: format!("sheet {:?} {}: model {} not in file", sname, k, c) }),
+                Some(d) => {
+                    let dk = d["kind"].as_str().unwrap_or("");
+                    if kind.is_empty() && dk == "s" && d["value"].as_str() == Some("") {
+                        // formula without cached result written as an empty string result: same meaning
+                    } else if dk != kind {
+                        let tagk = if formula.is_empty() { "" } else { "formula-cached-" };
+                        out.push(Diff { clause: "decoder-cells", symptom: format!("{}kind:{}->{}", tagk, if kind.is_empty() { "blank" } else { kind }, if dk.is_empty() { "blank" } else { dk }), detail: format!("sheet {:?} {}: model {} file {}", sname, k, c, d) });
+                    } else {
+                        let same = match kind {
+                            "n" => c["bits"] == d["bits"],
+                            _ => c["value"] == d["value"],
+                        };
+                        if !same {
+                            let mv = c["value"].as_str().unwrap_or("");
+                            let dv = d["value"].as_str().unwrap_or("");
+                            let sym = if kind == "s" && mv.replace("\r\n", "\n").replace('\r', "\n") == dv {
+                                "text-cr-normalised".to_string()
+                            } else if kind == "s" && mv.trim() == dv.trim() {
+                                "text-whitespace-changed".to_string()
+                            } else {
+                                format!("value-differs:{}", kind)
+                            };
+                            out.push(Diff { clause: "decoder-cells", symptom: sym, detail: format!("sheet {:?} {}: model {} file {}", sname, k, c, d) });
+                        }
+                        if kind == "s" {
+                            let mrich = c["raw"] == json!("RichText");
+                            let drich = d["rich"] == json!(true);
+                            if mrich != drich {
+                                out.push(Diff { clause: "decoder-cells", symptom: format!("rich:{}->{}", mrich, drich), detail: format!("sheet {:?} {}: model {} file {}", sname, k, c, d) });
+                            }
+                        }
+                    }
+                    if d["formula"].as_str().unwrap_or("") != formula {
+                        out.push(Diff { clause: "decoder-formulas", symptom: "formula-text".into(), detail: format!("sheet {:?} {}: model formula {:?} file {:?}", sname, k, formula, d["formula"]) });
+                    }
+                }
+            }
+        }
+        for (k, d) in &pc {
+            let has = !d["kind"].as_str().unwrap_or("").is_empty() || !d["formula"].as_str().unwrap_or("").is_empty();
+            if has && !mc.get(k).map(|c| !c["kind"].as_str().unwrap_or("").is_empty() || !c["formula"].as_str().unwrap_or("").is_empty()).unwrap_or(false) {
+                out.push(Diff { clause: "decoder-cells", symptom: "cell-extra".into(), detail: format!("sheet {:?} {}: file has {} but the model has no such cell", sname, k, d) });
+            }
+        }
+        // merges
+        if m.get("merges").is_some() && m["merges"] != q["merges"] {
+            out.push(Diff { clause: "decoder-merges", symptom: "merge-set-differs".into(), detail: format!("sheet {:?}: model {} file {}", sname, m["merges"], q["merges"]) });
+        }
+        // hyperlinks: model links live on cells
+        let mut mlinks = std::collections::BTreeMap::new();
+        for (k, c) in &mc {
+            if let Some(l) = c.get("link") {
+                mlinks.insert(k.clone(), l.clone());
+            }
+        }
+        let plinks = q["links"].as_object().cloned().unwrap_or_default();
+        for (k, l) in &mlinks {
+            match plinks.get(k) {
+                None => out.push(Diff { clause: "decoder-hyperlinks", symptom: "link-missing".into(), detail: format!("sheet {:?} {}: model link {} not in file", sname, k, l) }),
+                Some(d) => {
+                    let url = l["url"].as_str().unwrap_or("");
+                    let is_loc = l["location"] == json!(true);
+                    let got = if is_loc { d["location"].as_str() } else { d["target"].as_str() };
+                    if got != Some(url) {
+                        // is it some other link's target (swap) ?
+                        let swapped = mlinks.iter().any(|(k2, l2)| k2 != k && Some(l2["url"].as_str().unwrap_or("")) == got);
+                        out.push(Diff { clause: "decoder-hyperlinks", symptom: if swapped { "link-target-of-sibling".into() } else if got.is_none() { "link-target-absent".into() } else { "link-target-differs".into() }, detail: format!("sheet {:?} {}: model {} file {}", sname, k, l, d) });
+                    }
+                    if is_loc && d["rid"].is_string() {
+                        out.push(Diff { clause: "decoder-hyperlinks", symptom: "location-link-has-rid".into(), detail: format!("sheet {:?} {}: {}", sname, k, d) });
+                    }
+                }
+            }
+        }
+        for (k, d) in &plinks {
+            if !mlinks.contains_key(k) {
+                out.push(Diff { clause: "decoder-hyperlinks", symptom: "link-extra".into(), detail: format!("sheet {:?} {}: file has link {} the model has not", sname, k, d) });
+            }
+        }
+    }
+    // defined names: (scope sheet index or null, name) -> text
+    let mut mdn = std::collections::BTreeMap::new();
+    for d in model["defined_names"].as_array().cloned().unwrap_or_default() {
+        mdn.insert((d["local"].to_string(), d["name"].as_str().unwrap_or("").to_string()), d["address"].as_str().unwrap_or("").to_string());
+    }
+    for (si, m) in ms.iter().enumerate() {
+        for d in m["defined_names"].as_array().cloned().unwrap_or_default() {
+            // a sheet-held name with a local id is scoped to the sheet that holds it
+            let scope = if d["local"].is_null() { "null".to_string() } else { si.to_string() };
+            mdn.insert((scope, d["name"].as_str().unwrap_or("").to_string()), d["address"].as_str().unwrap_or("").to_string());
+        }
+    }
+    let mut pdn = std::collections::BTreeMap::new();
+    for d in p["defined_names"].as_array().cloned().unwrap_or_default() {
+        pdn.insert((d["local"].to_string(), d["name"].as_str().unwrap_or("").to_string()), d["text"].as_str().unwrap_or("").to_string());
+    }
+    if model.get("defined_names").is_some() && mdn != pdn {
+        let mk: Vec<_> = mdn.keys().cloned().collect();
+        let pk: Vec<_> = pdn.keys().cloned().collect();
+        let sym = if mk != pk {
+            let mnames: std::collections::BTreeSet<_> = mk.iter().map(|k| k.1.clone()).collect();
+            let pn: std::collections::BTreeSet<_> = pk.iter().map(|k| k.1.clone()).collect();
+            if mnames == pn {
+                "name-scope-differs"
+            } else {
+                "name-set-differs"
+            }
+        } else {
+            "name-text-differs"
+        };
+        out.push(Diff { clause: "decoder-defined-names", symptom: sym.into(), detail: format!("model {:?} file {:?}", mdn, pdn) });
+    }
+    out
+}
+
+/// Save with the chosen writer, validate + decode with P, compare.  Shared by C02 spaces and by C06/C11.
+pub fn check_package(b: &Spreadsheet, light: bool, tags: &[&str], case: &Value, sink: &mut Sink, prefix: &str) -> Option<Vec<u8>> {
+    let model = book_p(b, Opts { styles: false, annotations: true, dims: false });
+    // content-derived tag: some text of the model contains a carriage return
+    let mut tags_v: Vec<&str> = tags.to_vec();
+    if model.to_string().contains("\\r") {
+        tags_v.push("text-has-cr");
+    }
+    let tags: &[&str] = &tags_v;
+    let bytes = match save_bytes(b, light) {
+        Ok(x) => x,
+        Err(e) => {
+            sink.violations.push(Violation::new(&format!("{}save-succeeds", prefix), &format!("save-failed:{}", panic_class(&e)), tags, case.clone(), e));
+            return None;
+        }
+    };
+    let (problems, pbook) = with_py(|py| py.validate_decode(&bytes, false));
+    let mut seen = std::collections::BTreeSet::new();
+    for (class, part, msg) in problems {
+        let sym = format!("{}:{}", class, part_family(&part));
+        if seen.insert(sym.clone()) {
+            sink.violations.push(Violation::new(&format!("{}package-valid", prefix), &sym, tags, case.clone(), format!("{}: {}", part, msg)));
+        }
+    }
+    let mut seen2 = std::collections::BTreeSet::new();
+    for d in compare_model_p(&model, &pbook) {
+        if seen2.insert((d.clause, d.symptom.clone())) {
+            sink.violations.push(Violation::new(&format!("{}{}", prefix, d.clause), &d.symptom, tags, case.clone(), d.detail));
+        }
+    }
+    sink.evaluations += 1;
+    Some(bytes)
+}
+
+// ------------------------------------------------------------------------------------------------
+struct Lattice {
+    subsets: Vec<u32>,
+}
+impl Lattice {
+    fn decode(&self, i: u64) -> (u32, bool, bool) {
+        let s = self.subsets[(i / 4) as usize];
+        (s, i % 2 == 1, (i / 2) % 2 == 1)
+    }
+    fn tag_list(&self, i: u64) -> Vec<String> {
+        let (s, light, mac) = self.decode(i);
+        let mut t: Vec<String> = (0..FEATURES.len()).filter(|k| s & (1 << k) != 0).map(|k| FEATURES[k].to_string()).collect();
+        if t.is_empty() {
+            t.push("base".into());
+        }
+        // pair tags (for defects that need two features together)
+        let singles = t.clone();
+        for a in 0..singles.len() {
+            for b in a + 1..singles.len() {
+                t.push(format!("{}+{}", singles[a], singles[b]));
+            }
+        }
+        if light {
+            t.push("light-writer".into());
+        }
+        if mac {
+            t.push("macro".into());
+        }
+        t
+    }
+}
+impl Space for Lattice {
+    fn len(&self) -> u64 {
+        self.subsets.len() as u64 * 4
+    }
+    fn describe(&self, i: u64) -> Value {
+        let (s, light, mac) = self.decode(i);
+        json!({"kind":"lattice","features": (0..FEATURES.len()).filter(|k| s & (1<<k) != 0).map(|k| FEATURES[k]).collect::<Vec<_>>(), "bits": s, "light": light, "macro": mac})
+    }
+    fn tags(&self, i: u64) -> Vec<String> {
+        self.tag_list(i)
+    }
+    fn run(&self, i: u64, sink: &mut Sink) {
+        let (s, light, mac) = self.decode(i);
+        let tl = self.tag_list(i);
+        let tags: Vec<&str> = tl.iter().map(|x| x.as_str()).collect();
+        let case = self.describe(i);
+        let b = match std::panic::catch_unwind(|| build_lattice(s, mac)) {
+            Ok(b) => b,
+            Err(e) => {
+                sink.violations.push(Violation::new("build", &format!("panic:{}", panic_class(&panic_msg(&e))), &tags, case, panic_msg(&e)));
+                return;
+            }
+        };
+        if let Some(bytes) = check_package(&b, light, &tags, &case, sink, "") {
+            sink.hashes.push(fnv(&strip_volatile(&bytes)));
+        }
+    }
+}
+
+/// Observation hash input: list of part names and sizes (bytes themselves contain timestamps).
+fn strip_volatile(bytes: &[u8]) -> Vec<u8> {
+    let mut out = vec![];
+    if let Ok(mut z) = zip::ZipArchive::new(std::io::Cursor::new(bytes)) {
+        for i in 0..z.len() {
+            if let Ok(f) = z.by_index(i) {
+                if f.name().starts_with("docProps/") {
+                    continue;
+                }
+                out.extend_from_slice(f.name().as_bytes());
+                out.extend_from_slice(&f.size().to_le_bytes());
+            }
+        }
+    }
+    out
+}
+
+// ------------------------------------------------------------------------------------------------
+// escape channels x special strings
+pub const SPECIALS: [(&str, &str); 12] = [
+    ("amp", "a&b"),
+    ("lt", "a<b"),
+    ("gt", "a>b"),
+    ("dquote", "a\"b"),
+    ("apos", "a'b"),
+    ("amp-entity", "a&amp;b"),
+    ("edge-blank", " ab "),
+    ("lf", "a\nb"),
+    ("crlf", "a\r\nb"),
+    ("non-bmp", "a😀b"),
+    ("cdata-end", "a]]>b"),
+    ("percent", "a%20b"),
+];
+
+pub const CHANNELS: [&str; 24] = [
+    "cell-text", "cell-rich-run", "cell-formula-string", "formula-cached-text", "sheet-name", "defined-name-name", "defined-name-formula",
+    "link-url", "link-location", "link-tooltip", "comment-author", "comment-text", "validation-prompt", "validation-error", "validation-formula",
+    "cf-formula", "table-name", "table-column", "header", "footer", "font-name", "numfmt-code", "props-title", "props-creator",
+];
+
+/// Whether `special` is a meaningful/legal value for `channel`.
+pub fn channel_accepts(channel: &str, sp: &str) -> bool {
+    let multiline = sp == "lf" || sp == "crlf";
+    match channel {
+        // Excel sheet names: no [ ] : \ / ? *, no line breaks
+        "sheet-name" => !multiline && sp != "cdata-end",
+        // names are identifiers: letters, digits, _ . \ only -> only the plain variants make sense
+        "defined-name-name" | "table-name" => false,
+        "link-url" | "link-location" => !multiline && sp != "edge-blank",
+        "font-name" | "numfmt-code" | "table-column" => !multiline,
+        "defined-name-formula" | "validation-formula" | "cf-formula" | "cell-formula-string" => !multiline,
+        _ => true,
+    }
+}
+
+pub fn build_channel(channel: &str, text: &str) -> Spreadsheet {
+    let mut b = new_file();
+    b.new_sheet("Other").unwrap();
+    {
+        let ws = b.get_sheet_mut(&0).unwrap();
+        add_base_cells(ws, "ch");
+    }
+    let ws = b.get_sheet_mut(&0).unwrap();
+    match channel {
+        "cell-text" => {
+            ws.get_cell_mut("E1").set_value_string(text);
+            ws.get_cell_mut("E2").set_value_string(text); // same string twice (interning)
+        }
+        "cell-rich-run" => {
+            let mut rt = RichText::default();
+            let mut e1 = TextElement::default();
+            e1.set_text(text);
+            e1.get_run_properties_mut().set_bold(true);
+            let mut e2 = TextElement::default();
+            e2.set_text("tail");
+            rt.add_rich_text_elements(e1);
+            rt.add_rich_text_elements(e2);
+            ws.get_cell_mut("E1").set_rich_text(rt);
+        }
+        "cell-formula-string" => {
+            ws.get_cell_mut("E1").set_formula(format!("\"{}\"&A1", text.replace('"', "\"\"")));
+        }
+        "formula-cached-text" => {
+            ws.get_cell_mut("E1").set_formula("A1&\"\"");
+            ws.get_cell_mut("E1").set_formula_result_default(text);
+        }
+        "sheet-name" => {
+            b.set_sheet_name(1, text).unwrap();
+        }
+        "defined-name-formula" => {
+            let _ = ws.add_defined_name("Named1".to_string(), format!("\"{}\"", text.replace('"', "\"\"")));
+        }
+        "link-url" => {
+            add_ext_links(ws, 2, &|i| format!("https://example.com/{}?q={}", i, text));
+        }
+        "link-location" => {
+            add_int_links(ws, 2, &|i| format!("'{}'!A{}", text.replace('\'', "''"), i));
+        }
+        "link-tooltip" => {
+            add_ext_links(ws, 1, &default_url);
+            ws.get_cell_mut("G1").get_hyperlink_mut().set_tooltip(text);
+        }
+        "comment-author" => add_comments(ws, 2, &|i| if i == 1 { text.to_string() } else { "Plain".into() }, &|i| format!("c{}", i)),
+        "comment-text" => add_comments(ws, 2, &|_| "Author".into(), &|i| if i == 1 { text.to_string() } else { "plain".into() }),
+        "validation-prompt" => add_validations(ws, 1, text, "\"a,b\""),
+        "validation-error" => {
+            add_validations(ws, 1, "p", "\"a,b\"");
+            let mut dvs = ws.get_data_validations().unwrap().clone();
+            let mut l: Vec<DataValidation> = dvs.get_data_validation_list().to_vec();
+            l[0].set_error_message(text).set_error_title(text).set_show_error_message(true);
+            dvs.set_data_validation_list(l);
+            ws.set_data_validations(dvs);
+        }
+        "validation-formula" => add_validations(ws, 1, "p", &format!("\"{}\"", text.replace('"', "\"\""))),
+        "cf-formula" => add_cond_formats(ws, 1, &format!("\"{}\"", text.replace('"', "\"\""))),
+        "table-column" => add_table(ws, "Table1", [text, "Other"]),
+        "header" => {
+            ws.get_header_footer_mut().get_odd_header_mut().set_value(format!("&C{}", text));
+        }
+        "footer" => {
+            ws.get_header_footer_mut().get_odd_footer_mut().set_value(format!("&L{}", text));
+        }
+        "font-name" => {
+            ws.get_cell_mut("B1").get_style_mut().get_font_mut().set_name(text);
+        }
+        "numfmt-code" => {
+            ws.get_cell_mut("B1").get_style_mut().get_numbering_format_mut().set_format_code(format!("0.0\"{}\"", text.replace('"', "")));
+        }
+        "props-title" => {
+            b.get_properties_mut().set_title(text);
+        }
+        "props-creator" => {
+            b.get_properties_mut().set_creator(text);
+        }
+        _ => {}
+    }
+    b
+}
+
+struct Channels {
+    cases: Vec<(usize, usize, bool)>,
+}
+fn channel_cases() -> Vec<(usize, usize, bool)> {
+    let mut v = vec![];
+    for (ci, ch) in CHANNELS.iter().enumerate() {
+        for (si, (sn, _)) in SPECIALS.iter().enumerate() {
+            if channel_accepts(ch, sn) {
+                v.push((ci, si, false));
+                v.push((ci, si, true));
+            }
+        }
+    }
+    v
+}
+impl Space for Channels {
+    fn len(&self) -> u64 {
+        self.cases.len() as u64
+    }
+    fn describe(&self, i: u64) -> Value {
+        let (c, s, light) = self.cases[i as usize];
+        json!({"kind":"channel","channel": CHANNELS[c], "special": SPECIALS[s].0, "text": SPECIALS[s].1, "light": light})
+    }
+    fn tags(&self, i: u64) -> Vec<String> {
+        let (c, s, _) = self.cases[i as usize];
+        vec![format!("ch:{}", CHANNELS[c]), format!("sp:{}", SPECIALS[s].0), format!("ch:{}+sp:{}", CHANNELS[c], SPECIALS[s].0)]
+    }
+    fn run(&self, i: u64, sink: &mut Sink) {
+        let (c, s, light) = self.cases[i as usize];
+        let tl = self.tags(i);
+        let tags: Vec<&str> = tl.iter().map(|x| x.as_str()).collect();
+        let case = self.describe(i);
+        let (ch, text) = (CHANNELS[c], SPECIALS[s].1);
+        let b = match std::panic::catch_unwind(|| build_channel(ch, text)) {
+            Ok(b) => b,
+            Err(e) => {
+                sink.violations.push(Violation::new("build", &format!("panic:{}", panic_class(&panic_msg(&e))), &tags, case, panic_msg(&e)));
+                return;
+            }
+        };
+        if let Some(bytes) = check_package(&b, light, &tags, &case, sink, "") {
+            sink.hashes.push(fnv(&strip_volatile(&bytes)) ^ fnv(text.as_bytes()) ^ fnv(ch.as_bytes()));
+        }
+    }
+}
+
+// ------------------------------------------------------------------------------------------------
+// corpus re-saved
+pub fn corpus_files() -> Vec<String> {
+    let dir = format!("{}/tests/test_files", repo_root());
+    let mut v: Vec<String> = std::fs::read_dir(&dir)
+        .map(|rd| rd.filter_map(|e| e.ok()).map(|e| e.path().to_string_lossy().to_string()).filter(|p| p.ends_with(".xlsx") || p.ends_with(".xlsm")).collect())
+        .unwrap_or_default();
+    v.retain(|p| std::fs::metadata(p).map(|m| m.len() > 0).unwrap_or(false));
+    v.sort();
+    v
+}
+
+struct Corpus {
+    files: Vec<String>,
+    big: bool,
+}
+impl Space for Corpus {
+    fn len(&self) -> u64 {
+        self.files.len() as u64 * 2
+    }
+    fn describe(&self, i: u64) -> Value {
+        json!({"kind":"corpus","file": self.files[(i/2) as usize].rsplit('/').next(), "light": i % 2 == 1})
+    }
+    fn tags(&self, i: u64) -> Vec<String> {
+        vec![format!("corpus:{}", self.files[(i / 2) as usize].rsplit('/').next().unwrap_or(""))]
+    }
+    fn run(&self, i: u64, sink: &mut Sink) {
+        let path = &self.files[(i / 2) as usize];
+        let light = i % 2 == 1;
+        let tl = self.tags(i);
+        let tags: Vec<&str> = tl.iter().map(|x| x.as_str()).collect();
+        let case = self.describe(i);
+        let data = match std::fs::read(path) {
+            Ok(d) => d,
+            Err(_) => return,
+        };
+        if !self.big && data.len() > 600_000 {
+            sink.count("corpus_skipped_big_in_quick", 1);
+            return;
+        }
+        let b = match load_bytes(&data, true) {
+            Ok(b) => b,
+            Err(e) => {
+                // a corpus file the library cannot read is C03's business, not C02's
+                sink.count("corpus_unreadable", 1);
+                let _ = e;
+                return;
+            }
+        };
+        if let Some(bytes) = check_package(&b, light, &tags, &case, sink, "") {
+            sink.hashes.push(fnv(&strip_volatile(&bytes)));
+        }
+    }
+}
+
+pub fn space(tier: Tier, id: &str) -> Option<Box<dyn Space>> {
+    match id {
+        "lattice" => Some(Box::new(Lattice { subsets: subsets(tier) })),
+        "channels" => Some(Box::new(Channels { cases: channel_cases() })),
+        "corpus" => Some(Box::new(Corpus { files: corpus_files(), big: tier == Tier::Thorough })),
+        _ => None,
+    }
+}
+
+fn replay(tier: Tier, case: &Value) -> Vec<Violation> {
+    replay_e1(space(tier, case["_space"].as_str().unwrap_or("")), case)
+}
+
+fn run(ctx: &Ctx) -> i32 {
+    let ids = ["lattice", "channels", "corpus"];
+    let spaces = ids.iter().map(|id| (*id, space(ctx.tier, id).unwrap())).collect();
+    let nsub = subsets(ctx.tier).len();
+    run_e1(
+        ctx,
+        E1Spec {
+            spaces,
+            cfg: PoolCfg { chunk: 8, case_timeout: std::time::Duration::from_secs(120), ..Default::default() },
+            level: "exploration",
+            rule: "every workbook of (i) the feature-subset lattice over 11 annotation/structure features x {standard, light writer} x {macro payload, none}, (ii) every escape channel x applicable special string x both writers, (iii) every corpus file loaded and re-saved by both writers, is written to memory and handed to the independent Python validator+decoder; oracle = no validity problem and decoded cells/formulas/hyperlinks/merges/defined names/sheet list equal the pre-save model dump. distinct_nontrivial = distinct (part list, part sizes[, channel, text]) signatures of the produced packages".into(),
+            alphabets: json!({"features": FEATURES, "subsets": nsub, "writers": 2, "macro": 2, "channels": CHANNELS, "specials": SPECIALS.iter().map(|s| s.0).collect::<Vec<_>>(), "channel_cases": channel_cases().len(), "corpus_files": corpus_files().len()}),
+            bounds: json!({"lattice": if ctx.tier == Tier::Quick {"subsets of size <=2 and complements of size <=1 (cut of the 2^11 lattice, stated as a bound)"} else {"all 2^11 subsets"}, "corpus": if ctx.tier == Tier::Quick {"files <= 600 kB"} else {"all files"}}),
+            exhaustive: true,
+            caps_hit: vec![],
+            assumptions: vec!["independent reader = /verif/pyref/xlsx_ref.py (stdlib zipfile + expat); _xHHHH_ escapes are not interpreted on either side".into(), "count= attributes, part names and rId numbering are not compared (not in the statement)".into()],
+            min_distinct: 20,
+        },
+    )
 }
